@@ -54,4 +54,16 @@ def renderPieceStr (t : Tm) (dt : Dt) : Piece → Str
 def renderBody (body : Str) (dt : Dt) : Str :=
   (scan body).flatMap (renderPieceStr (timetuple dt) dt)
 
+/-- the body `_compile_format` works on after the suffix is cut and the empty spec replaced -/
+def effectiveBody (spec : Str) : Str :=
+  if (if endsWith spec Datetime.Gen.utcSuffix = true then List.take (spec.length - 4) spec else spec).isEmpty = true then Datetime.Gen.isoSpec
+  else if endsWith spec Datetime.Gen.utcSuffix = true then List.take (spec.length - 4) spec else spec
+
+instance : DecidableEq (Except Err Out) := fun a b =>
+  match a, b with
+  | .ok x, .ok y => if h : x = y then isTrue (by rw [h]) else isFalse (by intro e; cases e; exact h rfl)
+  | .error x, .error y => if h : x = y then isTrue (by rw [h]) else isFalse (by intro e; cases e; exact h rfl)
+  | .ok _, .error _ => isFalse (by intro e; cases e)
+  | .error _, .ok _ => isFalse (by intro e; cases e)
+
 end Datetime.Spec
